@@ -1,6 +1,6 @@
 (* Properties_C20.v — statements only.  C20: descriptor I/O is complete and exact under
    arbitrary short reads and writes.  The operating system is a schedule [list xfer]
-   ([Short n]: the call moves min(n, requested/left) bytes; [Err]: it returns -1);
+   ([Short n]: the call moves min(n, requested/left) bytes; [Err e]: it returns -1 with errno e — every e, EINTR and EAGAIN included);
    [ge1]: an error-free entry with n >= 1 — the quantifier of the property.  A write()
    that takes 0 bytes makes the C loop spin ([C20_write_zero_spins]); that is why n >= 1
    is stated.  The serializer (C02) and the tokener (C01) are function arguments. *)
@@ -44,17 +44,17 @@ Print Assumptions C20_write_ge1_complete_or_short.
 
 (* an error at call k = |pre|+1 before completion: -1, a message, and the descriptor holds
    exactly the bytes of the first k-1 transfers, a strict prefix *)
-Theorem C20_write_error : forall pre post ser,
+Theorem C20_write_error : forall pre e post ser,
   Forall ge1 pre -> wsum pre < zlen (c_str ser) ->
-  object_to_fd (pre ++ Err :: post) false (Some ser) =
+  object_to_fd (pre ++ Err e :: post) false (Some ser) =
     WRet (-1) true (zfirstn (wsum pre) (c_str ser)) (zlen pre + 1)
   /\ strict_prefix (zfirstn (wsum pre) (c_str ser)) (c_str ser).
 Proof. exact write_error. Qed.
 Print Assumptions C20_write_error.
 
-Theorem C20_write_error_after_completion : forall pre post ser,
+Theorem C20_write_error_after_completion : forall pre e post ser,
   Forall ge1 pre -> zlen (c_str ser) <= wsum pre ->
-  exists calls, object_to_fd (pre ++ Err :: post) false (Some ser) = WRet 0 false (c_str ser) calls
+  exists calls, object_to_fd (pre ++ Err e :: post) false (Some ser) = WRet 0 false (c_str ser) calls
                 /\ calls <= zlen pre.
 Proof. exact write_error_after_completion. Qed.
 Print Assumptions C20_write_error_after_completion.
@@ -126,10 +126,12 @@ Theorem C20_default_depth : eff_depth (-1) = 32 /\ forall d, d <> -1 -> eff_dept
 Proof. exact default_depth. Qed.
 Print Assumptions C20_default_depth.
 
-(* a read error at call k = |pre|+1: NULL, message, the parser is never called, nothing live *)
-Theorem C20_read_error : forall parse app_ok pre post data in_depth,
+(* a read error at call k = |pre|+1, whatever its errno and even if the bytes received so far
+   (or all of them: the failing call may be the end-of-file one) form a complete value: NULL,
+   message, the parser is never called, nothing live *)
+Theorem C20_read_error : forall parse app_ok pre e post data in_depth,
   always app_ok -> Forall ge1 pre -> rsum pre <= zlen data -> 1 <= eff_depth in_depth ->
-  object_from_fd_ex parse app_ok (pre ++ Err :: post) data in_depth =
+  object_from_fd_ex parse app_ok (pre ++ Err e :: post) data in_depth =
     RRet (mkrout JNull MRead (zlen pre + 1) None 0).
 Proof. exact read_error. Qed.
 Print Assumptions C20_read_error.
@@ -170,7 +172,7 @@ Print Assumptions C20_from_file_opened.
 Theorem C20_write_nonvacuous :
   object_to_fd [Short 2; Short 1; Short 100] false (Some [104;101;108;108;111]) =
     WRet 0 false [104;101;108;108;111] 3
-  /\ object_to_fd [Short 2; Err; Short 100] false (Some [104;101;108;108;111]) =
+  /\ object_to_fd [Short 2; Err 5; Short 100] false (Some [104;101;108;108;111]) =
     WRet (-1) true [104;101] 2
   /\ object_to_fd [Short 2; Short 0; Short 100] false (Some [104;101;108;108;111]) =
     WSpin [104;101] 2
@@ -183,7 +185,9 @@ Theorem C20_read_nonvacuous :
     RRet (mkrout (JArr [JInt 7; JStr [91;49;93]]) MNone 3 (Some (7, [91;49;93])) 0)
   /\ object_from_fd_ex show_parse (fun _ _ => true) [Short 3; Short 3] [91;49;93] (-1) =
     RRet (mkrout (JArr [JInt 32; JStr [91;49;93]]) MNone 2 (Some (32, [91;49;93])) 0)
-  /\ object_from_fd_ex show_parse (fun _ _ => true) [Short 2; Err] [91;49;93] 7 =
+  /\ object_from_fd_ex show_parse (fun _ _ => true) [Short 2; Err 5] [91;49;93] 7 =
+    RRet (mkrout JNull MRead 2 None 0)
+  /\ object_from_fd_ex show_parse (fun _ _ => true) [Short 3; Err 4] [91;49;93] 7 =
     RRet (mkrout JNull MRead 2 None 0)
   /\ object_from_fd_ex (fun _ _ => None) (fun _ _ => true) [Short 2; Short 2; Short 2] [91;49;93] 7 =
     RRet (mkrout JNull MParse 3 (Some (7, [91;49;93])) 0)
